@@ -94,12 +94,15 @@ CHECKS["C07"] = {
 CHECKS["C19"] = {
     "text": "Theorems (Coq, by evaluation of regenerated terms): every call, pointer store and atomic site that follows the allocation in "
             "nsync_note_new / nsync_counter_new is dominated by a test that is false for a NULL pointer, so a failed allocation makes the "
-            "constructor return NULL having touched nothing (C19_*_does_nothing_on_null), and the guards are not vacuous.  Scenario with a "
-            "fail-the-allocation switch compares existing objects byte-for-byte and re-uses them afterwards.",
+            "constructor return NULL having touched nothing (C19_*_does_nothing_on_null), and the guards are not vacuous.  For nsync_note_new also a "
+            "frame theorem over NoteModel (C19m_note_new_null_frame: from ANY world the failing allocation step returns NULL and changes no note, "
+            "lock, thread, counter or ghost), with NoteModel replayed in lock-step against runs in which a creator thread's allocations fail under "
+            "concurrency (scenario note_alloc); every C08 / C09 theorem quantifies over such runs.  Sequential scenario with a fail-the-allocation "
+            "switch compares existing objects byte-for-byte and re-uses them afterwards.",
     "design_ref": "DESIGN.md section 4, C19",
     "note": "The dominance facts come from the translator's AST walk (trusted); unchecked allocations elsewhere (nsync_waiter_new_, wait_n) are "
             "outside the property.",
-    "technique": "Coq evaluation of source-regenerated dominance conditions + fault-injection scenario",
+    "technique": "Coq evaluation of source-regenerated dominance conditions + frame theorem over NoteModel with lock-step replay + fault-injection scenarios",
 }
 CHECKS["C02"] = {
     "text": "Theorems (Coq) over MuModel: trylock/rtrylock never block from ANY world (each own step is never a semaphore wait, a rank 3->0 "
